@@ -94,6 +94,9 @@ META = dict(
 META["rule"] += (
     " " + "Added after the second round of seeded changes: family 'weak cut' (two ohm-sized blocks joined by one resistor of 1e4 .. 1e8, units 1 / 1e3 / 1e-3): only-path resistor, series law across the cut, block values, Foster, average effective resistance, tolerance 30 eps cond(L).")
 
+META["rule"] += (
+    " " + 'Added after the third round: half of the grid-built networks get a resistance value for every node pair (the links are those of the given adjacency).')
+
 RT = 1e-9
 
 
